@@ -103,6 +103,11 @@ func EvLogon(rel int, abs int, reset string) *Event {
 	return e
 }
 
+// EvLogon789: a Logon at T+rel announcing NextExpectedMsgSeqNum = our next outbound number + d.
+func EvLogon789(rel, d int) *Event {
+	return &Event{K: "in", Name: fmt.Sprintf("in(A@%s,789=S%+d)", relName(rel), d), In: &In{Type: "A", Rel: rel, NextExpS: IP(d)}}
+}
+
 // EvPipelined: first arrives with second already buffered behind it (second numbered relative to T at arrival).
 func EvPipelined(first, second *Event) *Event {
 	return &Event{K: "in", Name: first.Name + "+pipelined:" + second.Name, In: first.In, Behind: second.In}
